@@ -317,6 +317,25 @@ def run(rep, tier="quick", replay=None, evidence_dir=None, collect_only=False):
                 if st["s"] == "assign" and st["rv"]["r"] == "agg" and st["rv"].get("ak") == "tuple" and len(st["rv"]["ops"]) == 2 and "key" in bb.opdesc(st["rv"]["ops"][0]):
                     keyok = True
         rep.ob("C08.R9", "resolve_map keeps each entry's key", keyok, "", prog.bodies["types::Value::resolve_map"].loc())
+    # ---------------------------------------------------------------- R10 no lossy conversion on the value path
+    rep.rule("C08.R10", "where a conversion can fail the failure is reported: no lossy substitute (from_utf8_lossy, unchecked conversions) in decoding, resolution and the serde readers")
+    LOSSY = ("from_utf8_lossy", "to_string_lossy", "from_utf8_unchecked", "from_utf16_lossy")
+    lossy = []
+    nscan = 0
+    for k_, b_ in sorted(prog.bodies.items()):
+        if b_.crate != "apache_avro" or not b_.file.startswith(("avro/src/types.rs", "avro/src/decode.rs", "avro/src/reader/", "avro/src/serde/", "avro/src/bigdecimal.rs", "avro/src/decimal.rs", "avro/src/util.rs")):
+            continue
+        nscan += 1
+        for bi, t in b_.calls():
+            nm_ = callee_names(t["func"])
+            if nm_ and nm_[0].split("::")[-1] in LOSSY:
+                lossy.append((b_, bi, nm_[0]))
+    for b_, bi, n_ in lossy:
+        rep.ob("C08.R10", "%s does not call %s" % (b_.path if b_.kind != "Closure" else b_.parent, n_.split("::")[-1]), False,
+               "bytes that are not a valid string are turned into a different string (replacement characters) instead of an error: where the resolution rules give no result a value is returned", b_.loc(bi))
+    rep.ob("C08.R10", "no lossy conversion call on the value path", not lossy, "%d call(s)" % len(lossy), "")
+    rep.floor("C08.R10", "functions scanned on the value path", nscan, 600)
+
     if collect_only:
         return rep
     rep.floor("C08", "obligations", len(rep.obligations), 500)
